@@ -427,6 +427,14 @@ def _py_sugar_index(items):
     return "(" + ", ".join(parts) + ",)"
 
 
+def _b_nreduce(r):
+    """("nreduce", op, a, own_names, foreign ((name, size)…)): a.reduce(ops.<op>, frozenset of Variable OBJECTS) —
+    the funsor's own inputs and variables it does not mention, for the non-associative ops mean / var / std."""
+    x = build(r[2])
+    vs = frozenset([Variable(n, x.inputs[n]) for n in r[3]] + [Variable(n, Bint[s]) for n, s in r[4]])
+    return x.reduce(getattr(ops, r[1]), vs)
+
+
 def _b_rvar(r):
     shape = tuple(r[2])
     return Variable(r[1], Reals[shape] if shape else Real)
@@ -448,6 +456,7 @@ _EXT_BUILD = {
     "independent": lambda r: Independent(build(r[1]), r[2], r[3], r[4]),
     "getsugar": lambda r: build(r[1])[_sugar_index(r[2])],
     "unaryf": lambda r: getattr(ops, r[1])(build(r[2])),
+    "nreduce": lambda r: _b_nreduce(r),
 }
 
 
@@ -475,6 +484,8 @@ _EXT_PY = {
     "independent": lambda r: f"Independent({python_of(r[1])}, {r[2]!r}, {r[3]!r}, {r[4]!r})",
     "getsugar": lambda r: f"({python_of(r[1])})[{_py_sugar_index(r[2])}]",
     "unaryf": lambda r: f"ops.{r[1]}({python_of(r[2])})",
+    "nreduce": lambda r: (f"(lambda x_: x_.reduce(ops.{r[1]}, frozenset([Variable(n, x_.inputs[n]) for n in {list(r[3])!r}] + "
+                          f"[Variable(n, Bint[s]) for n, s in {[tuple(p) for p in r[4]]!r}])))({python_of(r[2])})"),
 }
 
 _EXT_CHILDREN = {
@@ -492,6 +503,7 @@ _EXT_CHILDREN = {
     "getitem": lambda r: [((1,), r[1], "other"), ((2,), r[2], "int")],
     "independent": lambda r: [((1,), r[1], "other")],
     "unaryf": lambda r: [((2,), r[2], "other")],
+    "nreduce": lambda r: [((2,), r[2], "other")],
     "getsugar": lambda r: [((1,), r[1], "other")] + [((2, i, 1), it[1], "int") for i, it in enumerate(r[2]) if it[0] == "r"],
 }
 
